@@ -41,6 +41,8 @@ def _prep(case):
         return ('internal_error', '%s: %s' % (type(e).__name__, traceback.format_exc(limit=3)[-400:]))
     try:
         prog = sasm.assemble(lines, case.args)
+    except sasm.AsmTooBig as e:
+        return ('too_big', str(e), lines)
     except sasm.AsmError as e:
         return ('asm_error', str(e), lines)
     return ('ok', prog, lines)
